@@ -1,22 +1,29 @@
 """C07 — the polynomial Hamiltonian is the Taylor expansion of the true CR3BP Hamiltonian.
 
-Generated (mu, libration point L1..L5, truncation degree N, unit directions u on S^5).  The physical Hamiltonian is
-obtained through the low-level builders, through HamiltonianPipeline and (L1/L2) through the public
-`point.hamiltonian(N, form="physical")`.  Phi = the library's own `_local2synodic_*` map (measured: Phi(s) = b + M s).
+Generated (mu, libration point L1..L5, truncation degree N, six unit directions u on S^5).  The physical Hamiltonian is
+observed through the low-level builders, through HamiltonianPipeline(point, N).get_hamiltonian("physical") and, for
+L1/L2 and N <= 6, through the public point.hamiltonian(N, form="physical") (L3/L4/L5: NotImplementedError accepted).
+Phi = the library's own _local2synodic_collinear/_triangular, measured as an affine map Phi(s) = b + M s.
 
-Oracle (vf.oracle.c07_series, multi-precision, no code shared with hiten): along every ray s = r u the exact energy
-E(Phi(r u)) and the exact CR3BP acceleration at the library's synodic state Phi(r u) are expanded in powers of r by
-power-series arithmetic.  H_N(r u) = sum_d r^d h_d(u) is a polynomial in r, so "H_N differs from the exact shifted and
-scaled energy by O(r^(N+1))" holds iff h_d(u) equals the d-th Taylor coefficient for every d <= N; likewise
-"Hamilton's equations reproduce the accelerations to O(r^N)" iff the r-coefficients of A*xddot(r u) agree for d <= N-1.
-Both are asserted coefficient-wise (sharp, not limited by the rounding floor) AND in the literal form on the geometric
-radius ladder r_k = r_max 2^-k (residual below the rigorous Legendre remainder bound; log-slope on the finest usable
-ratios; adding a degree does not make it worse).
+Oracle (vf.oracle.c07_series: multi-precision power-series arithmetic on the textbook energy and equations of motion,
+no code shared with hiten, self-tested against vf.oracle.cr3bp): along every ray s = r u the exact energy E(Phi(r u))
+and the exact CR3BP acceleration at the library's synodic state Phi(r u) are expanded in powers of r.
+H_N(r u) = sum_d r^d h_d(u) is a polynomial in r, hence "H_N differs from the exact shifted and scaled energy by
+O(r^(N+1))" holds iff h_d(u) equals the d-th Taylor coefficient for every d <= N, and "Hamilton's equations reproduce
+the accelerations to O(r^N)" iff the r-coefficients of A*xddot(r u) (xddot from the coefficient arrays by exact
+differentiation, A = measured position block of Phi) agree for d <= N-1.  This coefficient form is the primary
+assertion: it is sharp and not limited by the rounding floor.  Where it passes, the literal form is evaluated too on
+the radius ladder r_k = r_max 2^-k, k = 0..7: library evaluator vs own evaluator, residual below the rigorous Legendre
+remainder bound, log-slope on the two finest usable ratios (>= N+1-0.5 value, >= N-0.5 acceleration), and "adding a
+degree does not make it worse" against the separately built H_{N-1}.  Slope and add-a-degree are asserted only where
+the oracle's own exact remainder is asymptotic on the same rungs (about 3% / 17% of the directions are not: the
+remainder changes sign between rungs, which gives arbitrary slopes for a correct expansion).
 """
 from __future__ import annotations
 
 import logging
 import math
+import os
 
 import mpmath as mp
 import numpy as np
@@ -27,12 +34,14 @@ from ..hyp import explore
 from ..oracle import c07_series as S
 from ..oracle import cr3bp as O
 from ..oracle import polyref as P
-from ..runner import HarnessError
+from ..runner import HarnessError, shard_replays
 
 PROPERTY = "C07"
 LEVEL = "exploration"
 SHARDS = {"quick": 4, "thorough": 8}
-NUMBA_THREADS = {"quick": 1, "thorough": 1}
+NUMBA_THREADS = {"quick": 1, "thorough": 1}    # builders take milliseconds single-threaded; prange only adds contention
+REPLAY_IN_RUN = True    # regression inputs need the JIT-compiled polynomial stack: replayed inside the shards, not in the parent
+os.environ.setdefault("NUMBA_NUM_THREADS", "1")   # --replay / in-process runs
 RULE = ("case = (mu from the shared mixture: log-uniform [1e-9,0.5] + catalogue + edge values, point L1..L5, degree N in 2..8 quick / 2..10 thorough, "
         "6 unit directions u on S^5 with all six components non-zero); each direction is one evaluation: Taylor coefficients d=0..N of the value and "
         "d=0..N-1 of the acceleration along the ray, plus the 8-rung radius ladder r_max*2^-k (r_max = half the local distance to the nearest primary). "
@@ -57,11 +66,17 @@ DELTA_EQ = 2e-10     # documented accuracy of the collinear equilibrium position
 
 
 # ------------------------------------------------------------------ generators
+_W = (1.0, 0.83, 0.71, 0.93, 0.67, 0.79)
+
+
 @st.composite
 def direction(draw):
+    """Unit vector with six non-zero components.  The fixed unequal weights keep Hypothesis' favourite draws (all
+    magnitudes at a bound) away from the symmetric directions |u_1| = ... = |u_6|, on which x^2 - (y^2+z^2)/2 and
+    y px - x py vanish, i.e. on which a wrong quadratic potential or Coriolis term is invisible in the value."""
     wide = draw(st.integers(0, 4)) == 0
-    lo = 0.02 if wide else 0.3
-    v = [draw(st.floats(lo, 1.0)) * (1 if draw(st.booleans()) else -1) for _ in range(6)]
+    lo = 0.03 if wide else 0.4
+    v = [draw(st.floats(lo, 1.0)) * _W[i] * (1 if draw(st.booleans()) else -1) for i in range(6)]
     n = math.sqrt(sum(x * x for x in v))
     return [x / n for x in v]
 
@@ -535,8 +550,9 @@ def run(ctx):
         S.selftest()
     except AssertionError as e:
         raise HarnessError("oracle self-test failed: %r" % (e,))
+    shard_replays(ctx, replay)
     nmax = ctx.scale(8, 10)
-    explore(ctx, "ham", ham_case(nmax), eval_case, ctx.share(ctx.scale(240, 6000)), shrink_calls=ctx.scale(8, 60))
+    explore(ctx, "ham", ham_case(nmax), eval_case, ctx.share(ctx.scale(240, 12000)), shrink_calls=ctx.scale(8, 60))
 
 
 def replay(ctx, payload):
